@@ -153,6 +153,17 @@ func selftestSensitivity(args []string) error {
 					if _, err3 := run(tree, os.Environ(), "git", "apply", "--whitespace=nowarn", patchOf(e)); err3 == nil {
 						applied = true
 						onBase = " (on base " + e.Base + ")"
+						// bring the later repairs of /repo along where they fit (hunks that collide with the
+						// seeded change are skipped), so that a defect repaired since is not found in its place
+						run(tree, os.Environ(), "sh", "-c", fmt.Sprintf("git -C %s diff %s HEAD | patch -p1 -f -s --no-backup-if-mismatch -r - >/dev/null 2>&1", repoRoot(), e.Base))
+						if _, berr := run(tree, goEnv(), "go", "build", "./..."); berr != nil {
+							os.RemoveAll(tree)
+							os.MkdirAll(tree, 0o755)
+							run(repoRoot(), os.Environ(), "sh", "-c", fmt.Sprintf("git archive %s | tar -x -C %s", e.Base, tree))
+							run(tree, os.Environ(), "git", "apply", "--whitespace=nowarn", patchOf(e))
+						} else {
+							onBase += "+later fixes"
+						}
 					}
 				}
 			}
